@@ -12,7 +12,11 @@ def budget(tier):
 
 
 def all_names(u):
-    return [s.name for s in u.structs]
+    return [s.name for s in u.structs if not s.invalid]
+
+
+def valid_structs(u):
+    return [s for s in u.structs if not s.invalid]
 
 
 def st(name):
@@ -143,7 +147,7 @@ def c05_cases(u, groups, rng, tier):
 
 
 def required_types(u):
-    return [s.name for s in u.structs if any(f.req == 'required' for f in s.fields)]
+    return [s.name for s in valid_structs(u) if any(f.req == 'required' for f in s.fields)]
 
 
 def drop_required(rng, u, t, w):
@@ -174,7 +178,7 @@ def c09_cases(u, groups, rng, tier):
     out = []
     names = required_types(u)
     # types that nest a struct with required fields
-    nest = [s.name for s in u.structs if any(n in annot(f.ty) for f in s.fields for n in ('LeafReq', 'MutB', 'IdsReq', 'Ids'))]
+    nest = [s.name for s in valid_structs(u) if any(n in annot(f.ty) for f in s.fields for n in ('LeafReq', 'MutB', 'IdsReq', 'Ids'))]
     k = 6 if tier == 'quick' else 40
     for name in names + nest:
         r = rng.fork('c09' + name)
@@ -192,8 +196,8 @@ def c09_cases(u, groups, rng, tier):
 
 def c10_cases(u, groups, rng, tier):
     out = []
-    names = groups.get('defaults', []) + [s.name for s in u.structs if s.init is not None and s.name not in groups.get('defaults', [])]
-    users = [s.name for s in u.structs if any(n in annot(f.ty) for f in s.fields for n in names)]
+    names = groups.get('defaults', []) + [s.name for s in valid_structs(u) if s.init is not None and s.name not in groups.get('defaults', [])]
+    users = [s.name for s in valid_structs(u) if any(n in annot(f.ty) for f in s.fields for n in names)]
     k = 8 if tier == 'quick' else 60
     for name in names + users:
         s = u.by_name[name]
@@ -222,8 +226,8 @@ def c10_cases(u, groups, rng, tier):
 
 def c11_cases(u, groups, rng, tier):
     out = []
-    hold = [s.name for s in u.structs if s.holder]
-    users = [s.name for s in u.structs if any(n in annot(f.ty) for f in s.fields for n in hold)]
+    hold = [s.name for s in valid_structs(u) if s.holder]
+    users = [s.name for s in valid_structs(u) if any(n in annot(f.ty) for f in s.fields for n in hold)]
     k = 6 if tier == 'quick' else 40
     for name in hold + users + groups.get('holder', []):
         r = rng.fork('c11' + name)
